@@ -1024,6 +1024,27 @@ func ruleErrorsConsumed(c *Ctx, prop string) {
 				}
 				n++
 				if used {
+					// consumed: when it is tested against nil, the failing edge must refuse (return a non-nil error);
+					// an error that is looked at and then forgotten turns the failure into success just the same
+					for _, r := range *ev.Referrers() {
+						cmp, ok := r.(*ssa.BinOp)
+						if !ok || !(cmp.Op == token.NEQ || cmp.Op == token.EQL) || !(isNilConst(cmp.X) || isNilConst(cmp.Y)) {
+							continue
+						}
+						for _, rr := range *cmp.Referrers() {
+							iff, ok := rr.(*ssa.If)
+							if !ok {
+								continue
+							}
+							failEdge := cmp.Op == token.NEQ // true edge is the failing one for !=
+							if c.edgeRejects(iff, failEdge) || c.errorFlowsToReturn(ev, f) {
+								continue
+							}
+							per[fname(f)]++
+							c.violate("R28", fmt.Sprintf("R28:error-not-propagated:%s:%s#%d", fname(f), callName(call), per[fname(f)]), c.pos(call.Pos()),
+								"the error of "+callName(call)+" is compared with nil, but its failing edge does not return an error and the value is returned nowhere: the failure is swallowed (e.g. an inner err := shadowing the one that is returned) and a default or stale result is used")
+						}
+					}
 					continue
 				}
 				per[fname(f)]++
@@ -1039,6 +1060,61 @@ func ruleErrorsConsumed(c *Ctx, prop string) {
 				}
 				c.violate("R28", key, c.pos(call.Pos()),
 					"the error result of "+callName(call)+" is never looked at (dropped, shadowed by := in an inner scope, or overwritten): a failure of this step is returned as success with a stale or partial result")
+			}
+		}
+	}
+	// errors carried around a loop: an error stored in one iteration must stop the loop (or be tested inside it);
+	// otherwise a later, successful iteration overwrites it and the function returns success
+	for _, f := range fns {
+		for _, h := range f.Blocks {
+			lb := loopBlocks(h)
+			if len(lb) < 2 {
+				continue
+			}
+			for _, in := range h.Instrs {
+				phi, ok := in.(*ssa.Phi)
+				if !ok || !isErrorType(phi.Type()) {
+					continue
+				}
+				for i, e := range phi.Edges {
+					if !lb[h.Preds[i]] || isNilConst(e) || e == ssa.Value(phi) {
+						continue
+					}
+					// some test of this error (or of the carried variable) inside the loop leaves the loop on failure
+					tested := false
+					for b := range lb {
+						iff, ok := b.Instrs[len(b.Instrs)-1].(*ssa.If)
+						if !ok {
+							continue
+						}
+						for _, cond := range condAtoms(iff.Cond) {
+							cmp, ok := cond.(*ssa.BinOp)
+							if !ok || !(cmp.Op == token.NEQ || cmp.Op == token.EQL) {
+								continue
+							}
+							var v ssa.Value
+							if isNilConst(cmp.Y) {
+								v = cmp.X
+							} else if isNilConst(cmp.X) {
+								v = cmp.Y
+							}
+							if v == nil || !(v == e || v == ssa.Value(phi) || phiCarries(v, e)) {
+								continue
+							}
+							for _, s := range b.Succs {
+								if !lb[s] {
+									tested = true
+								}
+							}
+						}
+					}
+					if tested {
+						continue
+					}
+					per[fname(f)]++
+					c.violate("R28", fmt.Sprintf("R28:error-overwritten:%s#%d", fname(f), per[fname(f)]), c.pos(phi.Pos()),
+						"an error produced in one iteration of this loop is only kept in a variable: nothing inside the loop stops on it, so a later iteration that succeeds overwrites it and the function reports success (e.g. an incompatible axis followed by a stretchable one)")
+				}
 			}
 		}
 	}
@@ -1074,4 +1150,62 @@ func (c *Ctx) blankDiscard(f *ssa.Function, call *ssa.Call, idx int) bool {
 		return true
 	})
 	return found
+}
+
+// errorFlowsToReturn: the error value (or a phi of it) is a result of some return of f.
+func (c *Ctx) errorFlowsToReturn(ev ssa.Value, f *ssa.Function) bool {
+	seen := map[ssa.Value]bool{}
+	var derives func(v ssa.Value, depth int) bool
+	derives = func(v ssa.Value, depth int) bool {
+		if v == ev {
+			return true
+		}
+		if depth > 4 || seen[v] {
+			return false
+		}
+		seen[v] = true
+		if phi, ok := v.(*ssa.Phi); ok {
+			for _, e := range phi.Edges {
+				if derives(e, depth+1) {
+					return true
+				}
+			}
+		}
+		return false
+	}
+	for _, r := range returnsOf(f) {
+		for _, res := range r.Results {
+			seen = map[ssa.Value]bool{}
+			if derives(res, 0) {
+				return true
+			}
+		}
+	}
+	return false
+}
+
+// condAtoms: the comparison operands of a branch condition (through !).
+func condAtoms(v ssa.Value) []ssa.Value {
+	for {
+		if u, ok := v.(*ssa.UnOp); ok && u.Op == token.NOT {
+			v = u.X
+			continue
+		}
+		break
+	}
+	return []ssa.Value{v}
+}
+
+// phiCarries: v is a phi one of whose edges is e (the merged error variable tested at the loop head).
+func phiCarries(v, e ssa.Value) bool {
+	phi, ok := v.(*ssa.Phi)
+	if !ok {
+		return false
+	}
+	for _, x := range phi.Edges {
+		if x == e {
+			return true
+		}
+	}
+	return false
 }
